@@ -128,6 +128,16 @@ pub fn check(case: &Case, obs: &mut Obs) -> Result<(), Fail> {
     services.push(extra);
     let waker = futures::task::noop_waker();
     let mut cx = Context::from_waker(&waker);
+    // A tokio context is present, as it always is under anemo: an implementation may spawn tasks
+    // or use tokio's timers. The harness still owns every poll of the request futures; tasks the
+    // implementation spawned are run to quiescence after each step.
+    let rt = tokio::runtime::Builder::new_current_thread().enable_all().build().map_err(|e| Fail::Inconclusive(e.to_string()))?;
+    let _enter = rt.enter();
+    macro_rules! drive {
+        () => {
+            rt.block_on(async { for _ in 0..4 { tokio::task::yield_now().await; } });
+        };
+    }
     let mut live: Vec<Live> = Vec::new();
     let mut next_id = 0u64;
     let mut saw_limit = false;
@@ -148,6 +158,7 @@ pub fn check(case: &Case, obs: &mut Obs) -> Result<(), Fail> {
             let before = running_of(&shared, peer);
             live[i].polled = true;
             let r = live[i].fut.as_mut().poll(&mut cx);
+            drive!();
             let invoked = shared.lock().unwrap().invoked.contains(&live[i].id);
             if let Some(m) = shared.lock().unwrap().over_limit.clone() {
                 vfail!("c18:over-limit", "{m}");
@@ -285,6 +296,7 @@ pub fn check(case: &Case, obs: &mut Obs) -> Result<(), Fail> {
                     let before = running_of(&shared, peer);
                     let was_running = shared.lock().unwrap().running.contains_key(&l.id);
                     drop(l);
+                    drive!();
                     let after = running_of(&shared, peer);
                     vensure!(after == before - was_running as i64, "c18:cancel", "cancelling a request changed the gauge from {before} to {after} (was running: {was_running})");
                 }
@@ -326,6 +338,7 @@ pub fn check(case: &Case, obs: &mut Obs) -> Result<(), Fail> {
             let req = Request::new(Bytes::new()).with_header("id", id.to_string()).with_header("peer", p.to_string()).with_extension(peer_id(p, case.id_layout));
             let mut fut = services[0].call(req);
             let r = fut.as_mut().poll(&mut cx);
+            drive!();
             let invoked = shared.lock().unwrap().invoked.contains(&id);
             if k < max {
                 vensure!(invoked && r.is_pending(), "c18:capacity-leak", "peer {p}: after the history only {k} of max {max} fresh requests could run concurrently");
@@ -372,9 +385,117 @@ impl Part for Histories {
     fn run(&self, c: &Case, obs: &mut Obs) -> Result<(), Fail> { check(c, obs) }
 }
 
+// ---------------------------------------------------------------- many peers over the layer's lifetime
+
+#[derive(Clone, Debug, Serialize, Deserialize, PartialEq, Eq, Hash)]
+pub struct ManyCase {
+    pub max: u8,
+    pub block: bool,
+    /// distinct peers that each made one (completed) request before the probe
+    pub earlier_peers: u16,
+    /// how many of the earlier peers still have a request running during the probe
+    pub still_running: u8,
+}
+
+fn wide_peer_id(n: u32) -> PeerId {
+    let mut id = [0xA7; 32];
+    id[3..7].copy_from_slice(&n.to_be_bytes());
+    PeerId(id)
+}
+
+pub struct ManyPeers;
+impl Part for ManyPeers {
+    type Case = ManyCase;
+    fn name(&self) -> &'static str { "many-peers" }
+    fn rule(&self) -> &'static str {
+        "0-3000 distinct peers each complete one request through the layered service (0-8 of them keep one running), then two peers never seen before: P fills its `max` slots, Q sends one request; oracle: Q's request enters the service at once (P's load does not consume Q's slots), P's next request does not, and after P's requests finish P has `max` slots again; non-trivial = at least 1000 earlier peers; distinct by case"
+    }
+    fn fixed_cases(&self) -> Vec<ManyCase> {
+        vec![ManyCase { max: 1, block: false, earlier_peers: 1100, still_running: 0 }, ManyCase { max: 2, block: true, earlier_peers: 2100, still_running: 3 }]
+    }
+    fn strategy(&self, _t: Tier) -> BoxedStrategy<ManyCase> {
+        (1u8..4, any::<bool>(), prop_oneof![1 => 0u16..50, 1 => 50u16..1500, 1 => 900u16..3000], 0u8..9)
+            .prop_map(|(max, block, earlier_peers, still_running)| ManyCase { max, block, earlier_peers, still_running })
+            .boxed()
+    }
+    fn run(&self, case: &ManyCase, obs: &mut Obs) -> Result<(), Fail> {
+        let max = case.max as usize;
+        let mode = if case.block { WaitMode::Block } else { WaitMode::ReturnError };
+        let shared = Arc::new(Mutex::new(Shared { max: max as i64, ..Default::default() }));
+        let layer = InflightLimitLayer::new(max, mode);
+        let mut svc = layer.layer(Inner(shared.clone()));
+        let waker = futures::task::noop_waker();
+        let mut cx = Context::from_waker(&waker);
+        let rt = tokio::runtime::Builder::new_current_thread().enable_all().build().map_err(|e| Fail::Inconclusive(e.to_string()))?;
+        let _enter = rt.enter();
+        let drive = || rt.block_on(async { for _ in 0..4 { tokio::task::yield_now().await; } });
+        let mut next_id = 0u64;
+        let mut call = |svc: &mut _, who: u32, tag: u8| {
+            let id = next_id;
+            next_id += 1;
+            let req = Request::new(Bytes::new()).with_header("id", id.to_string()).with_header("peer", tag.to_string()).with_extension(wide_peer_id(who));
+            (id, Service::call(svc, req))
+        };
+        let mut kept = Vec::new();
+        for n in 0..case.earlier_peers as u32 {
+            let (id, mut fut) = call(&mut svc, n, if (n as usize) < case.still_running as usize { 10 + n as u8 } else { 250 }); // gauge tag: distinct for the few that keep running; the others run one at a time
+            let r = fut.as_mut().poll(&mut cx);
+            drive();
+            vensure!(r.is_pending() && shared.lock().unwrap().invoked.contains(&id), "c18:refused-below-limit", "peer number {n} (first request ever) was not admitted");
+            if (n as usize) < case.still_running as usize {
+                kept.push(fut);
+                continue;
+            }
+            let tx = shared.lock().unwrap().running.get_mut(&id).and_then(|e| e.1.take());
+            if let Some(tx) = tx { let _ = tx.send(true); }
+            let r = fut.as_mut().poll(&mut cx);
+            drive();
+            vensure!(matches!(r, Poll::Ready(Ok(_))), "c18:stuck", "released request of peer number {n} did not complete");
+        }
+        let (p, q) = (1_000_000u32, 1_000_001u32);
+        let mut held = Vec::new();
+        for k in 0..max {
+            let (id, mut fut) = call(&mut svc, p, 1);
+            let r = fut.as_mut().poll(&mut cx);
+            drive();
+            vensure!(r.is_pending() && shared.lock().unwrap().invoked.contains(&id), "c18:refused-below-limit", "new peer P after {} earlier peers: request {} of max {max} was not admitted", case.earlier_peers, k + 1);
+            held.push((id, fut));
+        }
+        let (idq, mut fq) = call(&mut svc, q, 2);
+        let rq = fq.as_mut().poll(&mut cx);
+        drive();
+        vensure!(shared.lock().unwrap().invoked.contains(&idq) && rq.is_pending(), "c18:other-peer-starved", "after {} earlier peers: P holds its {max} slots and a first request of another new peer Q did not enter the service ({})", case.earlier_peers,
+            match &rq { Poll::Ready(Err(s)) => format!("refused with {:?}", s.status()), Poll::Ready(Ok(_)) => "completed?".into(), Poll::Pending => "still waiting".into() });
+        let (idp, mut fp) = call(&mut svc, p, 1);
+        let rp = fp.as_mut().poll(&mut cx);
+        drive();
+        vensure!(!shared.lock().unwrap().invoked.contains(&idp), "c18:over-limit", "P's request number {} entered the service (max {max})", max + 1);
+        if !case.block {
+            vensure!(matches!(&rp, Poll::Ready(Err(s)) if s.status() == StatusCode::TooManyRequests), "c18:wrong-status", "over-limit request not refused with TooManyRequests");
+        }
+        drop(fp);
+        drop(held);
+        drop(fq);
+        drive();
+        for k in 0..max {
+            let (id, mut fut) = call(&mut svc, p, 1);
+            let r = fut.as_mut().poll(&mut cx);
+            drive();
+            vensure!(r.is_pending() && shared.lock().unwrap().invoked.contains(&id), "c18:capacity-leak", "P, after its requests were dropped: only {k} of max {max} fresh requests could run");
+            kept.push(fut);
+        }
+        if let Some(m) = shared.lock().unwrap().over_limit.clone() { vfail!("c18:over-limit", "{m}"); }
+        obs.label(if case.earlier_peers >= 1024 { "earlier-peers>=1024" } else { "earlier-peers<1024" });
+        obs.evals(case.earlier_peers as u64 + 2 * max as u64 + 2);
+        if case.earlier_peers >= 1000 { obs.nontrivial(case); }
+        Ok(())
+    }
+}
+
 pub fn run(tier: Tier) -> i32 {
     let mut ctx = Ctx::new("C18", tier);
-    ctx.assume("tokio's Semaphore and dashmap are trusted; the harness owns every poll (no-op waker), so interleavings are generated, not sampled");
+    ctx.assume("tokio's Semaphore and dashmap are trusted; the harness owns every poll of the request futures (no-op waker), so interleavings are generated, not sampled; a tokio context is present and tasks the implementation may spawn are run to quiescence after every step");
     ctx.run_part(Histories, tier.pick(40_000, 1_500_000));
+    ctx.run_part(ManyPeers, tier.pick(300, 6_000));
     ctx.finish()
 }
